@@ -9,8 +9,8 @@ os.makedirs(out, exist_ok=True)
 
 COMMON = r'''
 use pest_typed::{ParsableTypedNode, iterators::{Pair, ThinToken}};
-#[derive(Debug, PartialEq, Clone)]
-pub struct T(pub String, pub usize, pub usize, pub Vec<T>);
+#[path = "/verif/design_prototypes/explore/spec_interp.rs"] pub mod spec;
+pub use spec::T;
 pub fn from_thin<R: pest_typed::RuleType>(t: &ThinToken<R>) -> T {
     T(format!("{:?}", t.rule), t.start, t.end, t.children.iter().map(from_thin).collect())
 }
@@ -59,6 +59,7 @@ pest_typed = {{ path = "/repo/main" }}
 pest_typed_derive = {{ path = "/repo/derive" }}
 pest = "=2.7.14"
 pest_derive = "=2.7.14"
+pest_meta = "=2.7.14"
 ''')
     code = ["#![allow(warnings)]", COMMON.replace("ALPHA_N", str(len(ALPHA))).replace("ALPHA_V", "[" + ", ".join("'\\u{%x}'" % ord(c) for c in ALPHA) + "]")]
     for g in glist:
@@ -79,7 +80,8 @@ fn run{gid}(ins: &[String]) -> Vec<String> {{
     use pest::Parser;
     let mut out = vec![];
     let atomic = |n: &str| -> bool {{ match n {{ {" ".join(f'"{n}" => true,' for n,k in g["kinds"].items() if k in ("@","$"))} _ => false }} }};
-    let (mut n_ok, mut n_err, mut n_panic) = (0usize, 0usize, 0usize);
+    let (mut n_ok, mut n_err, mut n_panic, mut n_div) = (0usize, 0usize, 0usize, 0usize);
+    let spec = spec::Spec::new(r##"{g["text"]}"##).unwrap();
 ''')
         for rule, kind in g["kinds"].items():
             if kind == "_": continue
@@ -115,6 +117,20 @@ fn run{gid}(ins: &[String]) -> Vec<String> {{
                 Err(_) => None,
             }}
         }});
+        // Spec (reference PEG semantics, immutable stack) vs typed; Spec vs pest where pest returns
+        let specr = match spec.run("{rule}", s.as_str(), 2_000_000) {{
+            Ok(Some((e, toks))) => Some(Some((e, spec::nest(&toks, &atomic).into_iter().next().unwrap()))),
+            Ok(None) => Some(None),
+            Err(_) => None,
+        }};
+        if let Some(sr) = &specr {{
+            if sr.as_ref().map(|x| x.0) != typed.as_ref().map(|x| x.0) {{ out.push(format!("MISMATCH-SPEC-TYPED-OFFSET g{gid} {rule} {{:?}} typed={{:?}} spec={{:?}}", s, typed.as_ref().map(|x| x.0), sr.as_ref().map(|x| x.0))); }}
+            else if *sr != typed {{ out.push(format!("MISMATCH-SPEC-TYPED-TREE g{gid} {rule} {{:?}}\n   typed={{:?}}\n   spec ={{:?}}", s, typed.as_ref().map(|x| &x.1), sr.as_ref().map(|x| &x.1))); }}
+            if let Ok(pr) = &pestr {{
+                if sr.as_ref().map(|x| x.0) != pr.as_ref().map(|x| x.0) {{ out.push(format!("MISMATCH-SPEC-PEST-OFFSET g{gid} {rule} {{:?}} pest={{:?}} spec={{:?}}", s, pr.as_ref().map(|x| x.0), sr.as_ref().map(|x| x.0))); }}
+                else if sr != pr {{ out.push(format!("MISMATCH-SPEC-PEST-TREE g{gid} {rule} {{:?}}\n   pest={{:?}}\n   spec={{:?}}", s, pr.as_ref().map(|x| &x.1), sr.as_ref().map(|x| &x.1))); }}
+            }}
+        }} else {{ n_div += 1; }}
         match pestr {{
             Err(_) => {{ n_panic += 1; }}
             Ok(pr) => {{
@@ -126,7 +142,7 @@ fn run{gid}(ins: &[String]) -> Vec<String> {{
         }}
     }}
 ''')
-        code.append(f'''    out.push(format!("STAT g{gid} ok={{}} err={{}} panic={{}}", n_ok, n_err, n_panic));
+        code.append(f'''    out.push(format!("STAT g{gid} ok={{}} err={{}} panic={{}} diverge={{}}", n_ok, n_err, n_panic, n_div));
     out
 }}
 ''')
